@@ -112,6 +112,10 @@ struct Case {
     /// every other character >= 0x80 is replaced by a letter, so that the written file is valid UTF-8 as a whole when the words are UTF-8 encodings
     #[serde(default)]
     utf8ish: bool,
+    /// how the insignificant cells after the end of a padded row are stored: 0 = ' ' fg 7, 1 = ' ' with another foreground,
+    /// 2 = NUL with another foreground, 3 = only the last column is stored (' ' with another foreground)
+    #[serde(default)]
+    pad_kind: u8,
 }
 
 const WORDS: [&[u8]; 48] = [
@@ -134,6 +138,7 @@ struct Norm {
     pad: Vec<bool>,
     shape: u8,
     rep: u8,
+    pad_kind: u8,
 }
 
 const NEUTRAL: Cell = Cell(b'z', 7, 0);
@@ -265,7 +270,7 @@ fn normalize(c: &Case) -> Norm {
             r0[i] = Cell(*b, 7, 0);
         }
     }
-    let mut n = Norm { fmt, prep: c.prep % 3, alt: c.alt % 9, w, rows, pad, shape: c.shape % icyv::shape::CODES, rep: c.rep % 4 };
+    let mut n = Norm { fmt, prep: c.prep % 3, alt: c.alt % 9, w, rows, pad, shape: c.shape % icyv::shape::CODES, rep: c.rep % 4, pad_kind: c.pad_kind % 4 };
     tidy(&mut n);
     n
 }
@@ -302,7 +307,19 @@ fn build(n: &Norm) -> Buffer {
             }
             buf.layers[0].set_char((x as i32, y as i32), AttributedChar::new(*ch as char, attr));
         }
-        if n.pad[y] {
+        if n.pad[y] && n.fmt != ATA {
+            // blank on black in every variant: not significant
+            let (ch, fg) = match n.pad_kind {
+                0 => (' ', 7),
+                1 => (' ', 3),
+                2 => ('\0', 9),
+                _ => (' ', 3),
+            };
+            let from = if n.pad_kind == 3 { (n.w - 1).max(row.len()) } else { row.len() };
+            for x in from..n.w {
+                buf.layers[0].set_char((x as i32, y as i32), AttributedChar::new(ch, TextAttribute::new(fg, 0)));
+            }
+        } else if n.pad[y] {
             for x in row.len()..n.w {
                 buf.layers[0].set_char((x as i32, y as i32), AttributedChar::new(' ', TextAttribute::new(7, 0)));
             }
@@ -946,8 +963,9 @@ fn cases(fmt: usize, steer_bom: bool) -> BoxedStrategy<Case> {
     let shape = prop_oneof![3 => Just(0u8), 2 => 1u8..icyv::shape::CODES];
     let rep = prop_oneof![2 => Just(0u8), 1 => 1u8..4];
     let words = prop_oneof![3 => Just(Vec::new()), 1 => proptest::collection::vec((any::<u8>(), any::<u8>(), any::<u8>(), fg_col(), bg_col()), 1..=4)];
-    (0u8..3, alt, bom, rows(w, max_height(fmt)), shape, rep, words, proptest::bool::weighted(0.15))
-        .prop_map(move |(prep, alt, bom, rows, shape, rep, words, utf8ish)| Case { fmt: fmt as u8, prep, alt, bom, rows, shape, rep, utf8ish: utf8ish && !words.is_empty(), words })
+    let pad_kind = prop_oneof![2 => Just(0u8), 1 => 1u8..4];
+    (0u8..3, alt, bom, rows(w, max_height(fmt)), shape, rep, words, proptest::bool::weighted(0.15), pad_kind)
+        .prop_map(move |(prep, alt, bom, rows, shape, rep, words, utf8ish, pad_kind)| Case { fmt: fmt as u8, prep, alt, bom, rows, shape, rep, utf8ish: utf8ish && !words.is_empty(), words, pad_kind })
         .boxed()
 }
 
@@ -963,6 +981,9 @@ fn minimize(c: &Case) -> Vec<Case> {
             w.remove(i);
             out.push(Case { words: w, ..c.clone() });
         }
+    }
+    if c.pad_kind != 0 {
+        out.push(Case { pad_kind: 0, ..c.clone() });
     }
     if c.utf8ish {
         out.push(Case { utf8ish: false, ..c.clone() });
@@ -1036,7 +1057,7 @@ fn main() {
     eng.rule(
         "One part per format (avatar .avt, pcboard .pcb, ctrla .msg, renegade .an1 and its alternatives .an2-.an9, ascii .asc, atascii .ata). Buffers: single layer, width 80 (ATASCII 40), \
          height 1..=40, rows = run-structured cell lists (runs of 1..=80 equal cells, optional fill up to the right margin, then cut to a length \
-         0..=width with extra weight on width, width-1, width-2, 1, 0), last row never empty (a 'z' is stored when it would be); cells after the end of a row are either unset or explicit blanks on black; \
+         0..=width with extra weight on width, width-1, width-2, 1, 0), last row never empty (a 'z' is stored when it would be); cells after the end of a row are either unset or explicit blanks on black (a space in the default or another foreground, NUL, or only the last column stored); \
          characters 0x20..=0x7E, 0x80..=0xFE and the C0 codes 0x01..=0x1F that the format's reader prints as glyphs, minus the format's lead-ins (Avatar, PCBoard, Ctrl-A, Renegade: without BEL LF FF CR ESC and ^V ^Y ^L / '@' / ^A / '|'; ASCII: without BEL BS LF FF CR; \
          ATASCII: 0x01..=0x1A and 0x20..=0x7C, i.e. without ESC, the cursor codes 0x1C..0x1F and 0x7D..0x7F), illegal characters replaced by letters by construction; attributes foreground 0..=15 x background 0..=7 per run, bright foregrounds stored as colour 8..=15, as colour 0..=7 + BOLD flag (as the ANSI parser stores them), alternating, or 8..=15 + BOLD (1/3 of the cases); a quarter of the buffers carry 1..=4 words of one attribute from a dictionary of 48 control-code look-alikes of BBS software / file formats and UTF-8 encodings of CP437 glyphs (15% of those with every other high character replaced, so the whole file is valid UTF-8) \
          (ASCII: none; ATASCII: normal / inverse); screen preparation None / ClearScreen / Home uniformly; SaveOptions::new() with lossles_output=true; a 1% share of Ctrl-A / Renegade / ASCII buffers starts with the CP437 characters EF BB BF (not generated while the BOM finding is open), and 1% of the ATASCII buffers are a single row starting with inverse 'o;?' (the same bytes) without other inverse cells. \
